@@ -272,4 +272,85 @@ theorem renderRegions_head (rs : List (Int × Int)) (h : rs ≠ []) :
       exact ⟨c, u ++ ':' :: renderInt r.2 ++ ',' :: renderRegions (r' :: t'),
         by show (renderInt r.1 ++ _) ++ _ = _; rw [e]; simp, hc⟩
 
+/-! ### vocabulary and unfolding lemmas for the property theorems -/
+
+def isKeyword (s : List Char) : Prop := s = "molecule".toList ∨ s = "all".toList ∨ s = "chain".toList
+
+instance (s : List Char) : Decidable (isKeyword s) := by unfold isKeyword; infer_instance
+
+/-- the fields of a unit specification: `[int(i) for i in apair.split(":")] for apair in s.split(",")` -/
+def unitFields (s : List Char) : List (List (Option Int)) :=
+  (splitOn ',' s).map fun apair => (splitOn ':' apair).map pyInt
+
+theorem parseUnit_of_not_keyword (s : List Char) (h : ¬ isKeyword s) :
+    parseUnit s =
+      if (unitFields s).any (fun p => p.any Option.isNone) then .errInt
+      else if (unitFields s).any (fun p => p.length != 2) then .errFaulty
+      else .regions ((unitFields s).filterMap pairOfList) := by
+  unfold isKeyword at h
+  unfold parseUnit unitFields
+  rw [if_neg (fun e => h (Or.inl e)), if_neg (fun e => h (Or.inr (Or.inl e))), if_neg (fun e => h (Or.inr (Or.inr e)))]
+
+theorem filterMap_pairOfList (rs : List (Int × Int)) :
+    (rs.map fun r => [some r.1, some r.2]).filterMap pairOfList = rs := by
+  induction rs with
+  | nil => rfl
+  | cons r t ih => simp only [List.map_cons, List.filterMap_cons, pairOfList, ih]
+
+theorem unitFields_render (rs : List (Int × Int)) (h : rs ≠ []) :
+    unitFields (renderRegions rs) = rs.map fun r => [some r.1, some r.2] := by
+  unfold unitFields
+  rw [split_renderRegions rs h, List.map_map]
+  apply List.map_congr_left
+  intro r _
+  exact split_renderRegion r
+
+theorem render_not_keyword (rs : List (Int × Int)) (h : rs ≠ []) : ¬ isKeyword (renderRegions rs) := by
+  obtain ⟨c, t, e, hc⟩ := renderRegions_head rs h
+  rw [e]
+  unfold isKeyword
+  rintro (h' | h' | h') <;>
+  · have := (List.cons.inj h').1
+    subst this
+    rcases hc with hc | hc <;> revert hc <;> decide
+
+/-- every field an int and every piece of two fields: the shape of an accepted specification -/
+theorem fields_of_shape (F : List (List (Option Int)))
+    (h1 : F.any (fun p => p.any Option.isNone) = false) (h2 : F.any (fun p => p.length != 2) = false) :
+    F = (F.filterMap pairOfList).map fun r => [some r.1, some r.2] := by
+  induction F with
+  | nil => rfl
+  | cons p t ih =>
+    simp only [List.any_cons, Bool.or_eq_false_iff] at h1 h2
+    have hp : ∃ a b, p = [some a, some b] := by
+      match p, h1.1, h2.1 with
+      | [some a, some b], _, _ => exact ⟨a, b, rfl⟩
+      | [], _, h => simp at h
+      | [_], _, h => simp at h
+      | _ :: _ :: _ :: _, _, h => simp at h
+      | [none, _], h, _ => simp at h
+      | [some _, none], h, _ => simp at h
+    obtain ⟨a, b, rfl⟩ := hp
+    simp only [List.filterMap_cons, pairOfList, List.map_cons]
+    rw [← ih h1.2 h2.2]
+
+/-- `-ermd` as argparse converts it (`type=int`): not given, rejected, or the integer -/
+def ermdOf (a : CliArgs) : Option (Option Int) :=
+  match a.ermd with
+  | none => some none
+  | some s => (pyInt s).map some
+
+theorem cliBuild_eq (a : CliArgs) :
+    cliBuild a =
+      match ermdOf a with
+      | none => .usageError
+      | some rmd =>
+        if a.elastic && a.go then .usageError
+        else if !elasticOn a then .noElastic
+        else match unitDomain (parseUnit (a.eunit.getD dfltEunit)) with
+          | none => .valueError (parseUnit (a.eunit.getD dfltEunit) = .errFaulty)
+          | some dom => .processor (unitMerges (parseUnit (a.eunit.getD dfltEunit))) a.eb.isNone (cliProc a rmd dom) := by
+  unfold cliBuild ermdOf
+  rfl
+
 end C15
